@@ -144,6 +144,40 @@ fn prio_ms(user: Option<u64>, server: Option<u64>, ka: u64) -> u64 {
 }
 
 // ------------------------------------------------------------------ pre-state families (assigned)
+use crate::mqtt::connection::packet_id_manager::verif_harness as pidh;
+
+/// the identifiers in `ids` (pairwise distinct, any order) are in use; restricted to interior,
+/// pairwise non-adjacent values so that the allocator pre-state has a concrete shape (identifier 1,
+/// 65535 and adjacent identifiers are covered by the allocator / PacketIdManager kernels)
+fn use_ids<R: RoleType>(c: &mut GenericConnection<R, u16>, ids: &[u16]) {
+    let n = ids.len();
+    let mut s: [u16; 3] = [0; 3];
+    let mut k = 0;
+    while k < n {
+        kani::assume(ids[k] > 1 && ids[k] < u16::MAX);
+        s[k] = ids[k];
+        k += 1;
+    }
+    // sort (n <= 3)
+    if n >= 2 && s[0] > s[1] {
+        s.swap(0, 1);
+    }
+    if n >= 3 {
+        if s[1] > s[2] {
+            s.swap(1, 2);
+        }
+        if s[0] > s[1] {
+            s.swap(0, 1);
+        }
+    }
+    let mut k = 1;
+    while k < n {
+        kani::assume(s[k - 1] as u32 + 1 < s[k] as u32);
+        k += 1;
+    }
+    c.pid_man = pidh::mk_pidman(&s[..n]);
+}
+
 /// connected client: timer configuration symbolic
 fn fam_client_connected(v: Version) -> CC {
     let mut c = CC::new(v);
@@ -374,9 +408,8 @@ fn st_notify_closed_any() {
     let pid: u16 = kani::any();
     let hid: u16 = kani::any();
     kani::assume(sid != 0 && pid != 0 && hid != 0 && sid != pid);
-    c.pid_man.register_id(sid).unwrap();
+    use_ids(&mut c, &[sid, pid]);
     c.pid_suback.insert(sid);
-    c.pid_man.register_id(pid).unwrap();
     c.pid_puback.insert(pid);
     c.qos2_publish_handled.insert(hid);
     // a partially received frame
@@ -442,8 +475,7 @@ fn mk_pub5(qos: u8, id: u16, dup: bool) -> v5_0::GenericPublish<u16> {
 fn fam_inflight<R: RoleType>(c: &mut GenericConnection<R, u16>, i: u16, j: u16, persistent: bool) {
     kani::assume(i != 0 && j != 0 && i != j);
     c.need_store = persistent;
-    c.pid_man.register_id(i).unwrap();
-    c.pid_man.register_id(j).unwrap();
+    use_ids(c, &[i, j]);
     c.pid_puback.insert(i);
     c.pid_pubrec.insert(j);
     if persistent {
@@ -593,8 +625,7 @@ fn st_recv_pubcomp_flow() {
     let i: u16 = kani::any();
     let k: u16 = kani::any();
     kani::assume(i != 0 && k != 0 && i != k);
-    c.pid_man.register_id(i).unwrap();
-    c.pid_man.register_id(k).unwrap();
+    use_ids(&mut c, &[i, k]);
     c.pid_puback.insert(i);
     c.pid_pubcomp.insert(k);
     let m: u16 = kani::any();
@@ -638,7 +669,7 @@ fn st_send_publish_v311_q1_persistent() {
     kani::assume(id != 0);
     let registered: bool = kani::any();
     if registered {
-        c.pid_man.register_id(id).unwrap();
+        use_ids(&mut c, &[id]);
     }
     let pre = tm_of(&c);
     let ev = c.process_send_v3_1_1_publish(mk_pub311(1, id, false));
@@ -663,7 +694,7 @@ fn st_send_publish_v5_flow() {
     let mut c = fam_client_connected(Version::V5_0);
     let id: u16 = kani::any();
     kani::assume(id != 0);
-    c.pid_man.register_id(id).unwrap();
+    use_ids(&mut c, &[id]);
     let m: u16 = kani::any();
     let cnt: u16 = kani::any();
     kani::assume(m >= 1 && cnt <= m);
@@ -775,7 +806,7 @@ fn st_reuse_client_v311_clean_connect() {
     kani::assume(h != 0 && i != 0);
     // survivors of a persistent session
     c.qos2_publish_handled.insert(h);
-    c.pid_man.register_id(i).unwrap();
+    use_ids(&mut c, &[i]);
     c.pid_puback.insert(i);
     let ka: u16 = kani::any();
     let pre = tm_of(&c);
@@ -838,7 +869,7 @@ fn dispatch_client(v5: bool) {
     let mut c = fam_client_connected(v311_or_v5(v5));
     let i: u16 = kani::any();
     kani::assume(i != 0);
-    c.pid_man.register_id(i).unwrap();
+    use_ids(&mut c, &[i]);
     c.pid_puback.insert(i);
     let h: u8 = kani::any();
     kani::assume((h >> 4) != 3); // PUBLISH carries its body in the Arc variant: separate harnesses
@@ -963,8 +994,7 @@ fn st_id_calls_total() {
     let a: u16 = kani::any();
     let b: u16 = kani::any();
     kani::assume(a != 0 && b != 0 && a != b);
-    c.pid_man.register_id(a).unwrap();
-    c.pid_man.register_id(b).unwrap();
+    use_ids(&mut c, &[a, b]);
     let q: u16 = kani::any();
     let op: u8 = kani::any();
     kani::assume(op <= 2);
@@ -1060,7 +1090,7 @@ fn st_send_publish_v5_limit() {
     c.maximum_packet_size_send = l;
     let id: u16 = kani::any();
     kani::assume(id != 0);
-    c.pid_man.register_id(id).unwrap();
+    use_ids(&mut c, &[id]);
     let pre = tm_of(&c);
     let p = mk_pub5(1, id, false);
     let sz = p.size();
@@ -1169,8 +1199,7 @@ fn st_recv_connack_v311_resume() {
     let i: u16 = kani::any();
     let k: u16 = kani::any();
     kani::assume(i != 0 && k != 0 && i != k);
-    c.pid_man.register_id(i).unwrap();
-    c.pid_man.register_id(k).unwrap();
+    use_ids(&mut c, &[i, k]);
     c.pid_puback.insert(i);
     c.pid_pubcomp.insert(k);
     c.store.add(mk_pub311(1, i, true).try_into().unwrap()).unwrap();
@@ -1329,7 +1358,7 @@ fn publish_never_dropped(v5: bool) {
     }
     let id: u16 = kani::any();
     kani::assume(id != 0);
-    c.pid_man.register_id(id).unwrap();
+    use_ids(&mut c, &[id]);
     let q2: bool = kani::any();
     let qos = if q2 { 2 } else { 1 };
     let pre = tm_of(&c);
@@ -1380,8 +1409,7 @@ fn st_erase_stored_publish_v5() {
     let k: u16 = kani::any();
     kani::assume(i != 0 && k != 0 && i != k);
     let q2: bool = kani::any();
-    c.pid_man.register_id(i).unwrap();
-    c.pid_man.register_id(k).unwrap();
+    use_ids(&mut c, &[i, k]);
     if q2 {
         c.pid_pubrec.insert(i);
     } else {
@@ -1487,7 +1515,7 @@ fn st_recv_two_packets_one_buffer() {
     c.pingresp_recv_set = false;
     let i: u16 = kani::any();
     kani::assume(i != 0);
-    c.pid_man.register_id(i).unwrap();
+    use_ids(&mut c, &[i]);
     c.pid_puback.insert(i);
     // PINGRESP then PUBACK(i)
     let b: [u8; 6] = [0xD0, 0, 0x40, 2, (i >> 8) as u8, i as u8];
@@ -1767,8 +1795,7 @@ fn st_send_stored_limit_v5() {
     let i: u16 = kani::any();
     let k: u16 = kani::any();
     kani::assume(i != 0 && k != 0 && i != k);
-    c.pid_man.register_id(i).unwrap();
-    c.pid_man.register_id(k).unwrap();
+    use_ids(&mut c, &[i, k]);
     c.pid_puback.insert(i);
     c.pid_pubcomp.insert(k);
     c.store.add(mk_pub5(1, i, true).try_into().unwrap()).unwrap(); // 9 bytes
@@ -1816,7 +1843,7 @@ fn st_send_pubrel_states_v311() {
     c.pingreq_send_set = st != 0 && ka != 0;
     let k: u16 = kani::any();
     kani::assume(k != 0);
-    c.pid_man.register_id(k).unwrap();
+    use_ids(&mut c, &[k]);
     let pre = tm_of(&c);
     kani::cover!(st == 0 && c.need_store, "PUBREL queued between two connections of a persistent session");
     let ev = c.process_send_v3_1_1_pubrel(mk_pubrel311(k));
@@ -1851,7 +1878,7 @@ fn st_send_connack_v5_resume_count() {
     c.publish_send_count = 0;
     let i: u16 = kani::any();
     kani::assume(i != 0);
-    c.pid_man.register_id(i).unwrap();
+    use_ids(&mut c, &[i]);
     c.pid_puback.insert(i);
     c.store.add(mk_pub5(1, i, true).try_into().unwrap()).unwrap();
     let pre = tm_of(&c);
@@ -1912,4 +1939,5 @@ fn st_recv_publish_v5_recv_max() {
     core::mem::forget(ev);
     core::mem::forget(c);
 }
+
 
